@@ -15,7 +15,7 @@ import (
 func init() {
 	register(&Property{
 		ID:        "C08",
-		Technique: "compiler bounds-check-elimination report as a proof oracle, backed by a difference-constraint prover over SSA values and lengths for the sites the compiler leaves (an/bounds.go), panic-site and loop-bound scan, codec layout extraction from encoder and decoder SSA compared item by item with each other and with the wire spec table",
+		Technique: "compiler bounds-check-elimination report as a proof oracle, backed by a difference-constraint prover over SSA values and lengths for the sites the compiler leaves (an/bounds.go), panic-site and loop-bound scan, codec layout extraction from encoder and decoder SSA compared item by item with each other and with the wire spec table; scan of the assembly listing for bounds-failure calls the report omits; CFG reachability from the varint budget-spent edge to need-more returns",
 		Explanation: "Statically decidable part of 'the frame codec round-trips and parsing is total': " +
 			"(R1) totality: in ParseFrame, ReadVarint, AppendFrame, AppendVarint, SplitData, SplitN every index/slice is proved in range by the Go compiler's prove pass or implied by the dominating comparisons (an/bounds.go), there is no other panic site (a make that grows the destination is shown to have 0 <= len <= cap) and no recursion, and every loop has a constant bound, is bounded by a length, or strictly shrinks its operand; " +
 			"(R2) AppendFrame's emitted layout and ParseFrame's consumed layout agree item by item and both equal the wire spec (control byte bit fields done/kind/control, three varints, payload of the announced length); AppendVarint and ReadVarint agree on group size, continuation bit and order; " +
